@@ -297,6 +297,12 @@ func (b *bufferWriter) expectBody(r *http.Request) bool {
 }
 
 func (b *bufferWriter) Close() error {
+	// A response spilled to a temporary file is only removed by closing a reader of the
+	// writer. When no reader was taken (response over the limit, HEAD, 204, 304, ...)
+	// take it here so that the file does not stay behind.
+	if rdr, err := b.buffer.Reader(); err == nil {
+		_ = rdr.Close()
+	}
 	return b.buffer.Close()
 }
 
